@@ -34,7 +34,7 @@ def _sig(rj):
     narrow = bool(ev.get("o", {}).get("narrow", False))
     rescaled = bool(st.get("median")) and st.get("scheme", 1) in (1, 3)
     return {"action": ev.get("e"), "invariant": rj.invariant or "step", "kind": st.get("kind", ""), "fam": st.get("fam", ""),
-            "narrow": narrow, "rescaled_median": rescaled,
+            "narrow": narrow, "rescaled_median": rescaled, "scheme": st.get("scheme", ""),
             "median": st.get("median", ""), "outcome": ev.get("rk", ""), "emptyclass": empty,
             "compound": st.get("kind", "") in ("invariant", "mixture"), "after_refusal": refused}
 
@@ -55,6 +55,25 @@ def _cleanup():
             os.remove(p)
         except OSError:
             pass
+
+
+_orig_load = vc.load_findings
+
+
+def _load_findings():
+    """An entry of findings.d/C09.json REPLACES the entry of known_findings.json with the same id (a fragment
+    that narrows a match must not be shadowed by the older, broader entry until the coordinator has merged it)."""
+    f = _orig_load()
+    last = {}
+    for n, k in enumerate(f.get("known", [])):
+        if k.get("property") == "C09" and k.get("id"):
+            last[k["id"]] = n
+    f["known"] = [k for n, k in enumerate(f.get("known", []))
+                  if not (k.get("property") == "C09" and k.get("id") and last[k["id"]] != n)]
+    return f
+
+
+vc.load_findings = _load_findings
 
 
 def _known_ids():
